@@ -1,7 +1,7 @@
 CONSTANTS Profiles <- P2
- SingleActive = 16
+ SingleActive = 5
  EmptyActive = 3
- RepActive = 4
+ RepActive = 3
  RichActive = 2
  JointActive = 1
  OverrideLens = {0, 2}
